@@ -160,4 +160,38 @@ theorem justification_eq (previousEpoch currentEpoch : Nat) (f : FFG) (total pre
 /-- non-vacuity: the state's `Bitvector[4]` -/
 example : ∃ f : FFG, f.justification_bits.length = 4 := ⟨⟨[true, false, true, false], default, default, default⟩, rfl⟩
 
+/-! ## Registry updates: the batched exit queue -/
+
+/-- `registry_batched_eq_sequential`: the ejections of `phase0.ProcessEpochRegistryUpdates` — ONE scan over the exit
+epochs in `ComputeRegistryProcessData` (queue end, churn used in the last epoch; a later epoch restarts the
+count), then `exitEnd`/`endChurn` stepping over the validators to eject — assign the same
+`(exit_epoch, withdrawable_epoch)` to the same validators as the spec's loop, which calls
+`initiate_validator_exit` one by one and recomputes the queue from the whole registry each time.
+For every configuration, epoch and registry (no size bound); `EpochsSmall`: all epochs in play are far below
+`FAR_FUTURE_EPOCH` (otherwise an assigned exit epoch could collide with the "no exit" marker). -/
+theorem registry_batched_eq_sequential (cfg : Config) (cur : Nat) (vals : List Validator)
+    (hsmall : Lemmas.EpochsSmall cfg cur vals) :
+    Impl.processEjections cfg (Impl.computeRegistryProcessData cfg vals cur).churnLimit
+        (Impl.computeRegistryProcessData cfg vals cur).exitQueueEnd
+        (Impl.computeRegistryProcessData cfg vals cur).exitQueueEndChurn
+        (Impl.computeRegistryProcessData cfg vals cur).indicesToEject vals =
+      (Impl.computeRegistryProcessData cfg vals cur).indicesToEject.foldl (initiate_validator_exit_pure cfg cur) vals :=
+  Lemmas.ejections_batched_eq_sequential cfg cur vals hsmall
+
+/-- non-vacuity of `EpochsSmall` -/
+example : Lemmas.EpochsSmall default 10 [default, { (default : Validator) with exit_epoch := 17 }] := by
+  refine ⟨by decide, ?_⟩
+  intro v hv hne
+  simp only [List.mem_cons, List.not_mem_nil, or_false] at hv
+  rcases hv with rfl | rfl <;> decide
+
+/-- Lead #13 (confirmed on the unchanged tree, repaired by /repo commit 6d1e229): the scan as it was —
+the churn count is NOT restarted when a later exit epoch is found — reports queue end 7 with churn 4 for
+the exit epochs [5,5,5,7] (start epoch 5), the repaired scan and the spec's count report churn 1. With a
+churn limit of 4 the old code therefore moved the next ejection to epoch 8 where `initiate_validator_exit`
+assigns epoch 7: `registry_batched_eq_sequential` was false for the code as found. -/
+theorem registry_scan_unfixed_witness :
+    Impl.exitQueueScanUnfixed 5 [5, 5, 5, 7] = (7, 4) ∧ Impl.exitQueueScan 5 [5, 5, 5, 7] = (7, 1) := by
+  decide
+
 end Zrnt.Proofs.C02
